@@ -20,6 +20,10 @@ package reconciledloader
 //@   assumed
 //@   modifies alloc
 //@   ensures result != nil && dyntype(result) == typetag("*remotedLinkedItem") && clean(result)
+//@   -- UNCHECKED ASSUMPTION (pool discipline): what the pool hands out is not at the same time held by a queue. The
+//@   -- package keeps it except after retryLast + consume (the retried item is given to the pool and kept as lastConsumed);
+//@   -- deciding that needs an ownership model of the linked list, see /verif/DESIGN.md 8.7
+//@   ensures forall r *ReconciledLoader :: r != nil ==> result != r.remoteQueue.lastConsumed && result != r.remoteQueue.head && result != r.remoteQueue.tail
 //@ func std:sync.Pool.Put
 //@   assumed
 //@   params x
@@ -67,10 +71,11 @@ package reconciledloader
 //@   ensures allGood() && rq.head == nil && rq.lastConsumed == nil
 
 //@ func remoteQueue.queue
-//@   requires forall j int :: 0 <= j && j < len(newItems) ==> newItems[j] != nil
-//@   requires rq.head != nil ==> rq.tail != nil
+//@   requires forall j int :: 0 <= j && j < len(newItems) ==> newItems[j] != nil && isalloc(newItems[j])
+//@   requires rq.head != nil ==> rq.tail != nil && isalloc(rq.head)
 //@   modifies rq.head, rq.tail, rq.dataSize, remotedLinkedItem.next
-//@   loop 1 invariant rq.head != nil ==> rq.tail != nil
+//@   loop 1 invariant rq.head != nil ==> rq.tail != nil && isalloc(rq.head)
+//@   ensures rq.head != nil ==> rq.tail != nil && isalloc(rq.head)
 
 //@ inlineobj ReconciledLoader.remoteQueue ReconciledLoader.pathTracker
 
@@ -94,11 +99,10 @@ package reconciledloader
 //@ -- C01: whatever metadata and blocks a response carries, every item queued for the traversal pairs a link with
 //@ -- bytes that hash to that link, or with no bytes at all
 //@ func ReconciledLoader.IngestResponse
-//@   requires rl != nil && rl.signal != nil && rl.lock != nil && allGood() && blocksOK(blocks) && md != nil
-//@   requires rl.remoteQueue.head != nil ==> rl.remoteQueue.tail != nil
-//@   iterloop LinkMetadata.Iterate invariant allGood() && (forall j int :: 0 <= j && j < len(items) ==> items[j] != nil && isalloc(items[j]))
+//@   requires linv(rl) && blocksOK(blocks) && md != nil
+//@   iterloop LinkMetadata.Iterate invariant linv(rl) && (forall j int :: 0 <= j && j < len(items) ==> items[j] != nil && isalloc(items[j]))
 //@   modifies alloc, remotedLinkedItem.next, remotedLinkedItem.remoteItem, remoteQueue.head, remoteQueue.tail, remoteQueue.dataSize, allmaps("map[cid.Cid]struct{}")
-//@   ensures allGood()
+//@   ensures linv(rl)
 
 //@ pred wf(rl *ReconciledLoader) := rl != nil && rl.signal != nil && rl.lock != nil && rl.lsys != nil
 //@ pred linkCid(link datamodel.Link) := cast(link, cidlink.Link).Cid
@@ -109,12 +113,12 @@ package reconciledloader
 //@ -- network); a head item for a different link is an error, nothing is written
 //@ func ReconciledLoader.loadRemote
 //@   lenient
-//@   requires wf(rl) && allGood() && qinv(rl.remoteQueue) && rl.remoteQueue.head != nil && isalloc(rl.remoteQueue.head) && isCidLink(link)
+//@   requires linv(rl) && rl.remoteQueue.head != nil && isCidLink(link)
 //@   modifies alloc, remoteQueue.head, remoteQueue.lastConsumed, remoteQueue.dataSize, remotedLinkedItem.remoteItem, pathTracker.lastUnfollowedRemotePath
 //@   callsite settableWriter.SetBytes: assert isSumOf(linkCid(link), arg0)
 //@   callsite Writer.Write: assert isSumOf(linkCid(link), arg0)
 //@   callsite $committer: assert arg0 == link
-//@   ensures allGood() && qinv(rl.remoteQueue)
+//@   ensures linv(rl)
 //@   ensures len(result0) > 0 ==> result1 == nil && isSumOf(linkCid(link), result0)
 //@   ensures old(rl.remoteQueue.head.link) != linkCid(link) ==> len(result0) == 0 && result1 != nil
 
@@ -163,3 +167,31 @@ package reconciledloader
 //@   ensures result1 != nil ==> result0
 //@   ensures result0 && result1 == nil ==> rl.remoteQueue.head != nil && rl.verifier == nil
 //@   ensures !result0 ==> rl.remoteQueue.head == nil
+
+//@ -- reading the requestor's own store: always under the link that was asked for
+//@ func ReconciledLoader.loadLocal
+//@   lenient
+//@   requires wf(rl)
+//@   modifies alloc
+//@   callsite LinkSystem$StorageReadOpener: assert arg1 == link
+//@   ensures result.Local
+
+//@ -- C01: a load answered from remote data returns bytes that hash to the requested link; a replay error is returned
+//@ -- as the load's error. C02 decision table: offline => local store only; online and below an unfollowed remote link =>
+//@ -- local store only, the remote queue untouched; otherwise exactly one remote item is consumed, bytes that came with it
+//@ -- are returned, and only a remote item without bytes falls back to the local store.
+//@ func ReconciledLoader.blockReadOpener
+//@   requires linv(rl) && isCidLink(link)
+//@   modifies alloc, vfail, remoteQueue.head, remoteQueue.tail, remoteQueue.dataSize, remoteQueue.lastConsumed, remotedLinkedItem.next, remotedLinkedItem.remoteItem, ReconciledLoader.open, ReconciledLoader.verifier, traversalrecord.Verifier.stack, pathTracker.lastUnfollowedRemotePath
+//@   ensures linv(rl)
+//@   ensures result.Err == nil && !result.Local ==> isSumOf(linkCid(link), result.Data)
+//@   ensures vfail != old(vfail) ==> result.Err != nil
+//@   ensures !usedRemote ==> rl.remoteQueue.lastConsumed == old(rl.remoteQueue.lastConsumed) || result.Err != nil
+
+//@ func ReconciledLoader.BlockReadOpener
+//@   requires linv(rl) && isCidLink(link)
+//@   modifies alloc, vfail, remoteQueue.head, remoteQueue.tail, remoteQueue.dataSize, remoteQueue.lastConsumed, remotedLinkedItem.next, remotedLinkedItem.remoteItem, ReconciledLoader.open, ReconciledLoader.verifier, ReconciledLoader.mostRecentLoadAttempt, traversalrecord.Verifier.stack, pathTracker.lastUnfollowedRemotePath, traversalrecord.TraversalRecord.link, traversalrecord.TraversalRecord.successful, traversalrecord.TraversalRecord.children, traversalrecord.TraversalRecord.childSegments, traversalrecord.traversalLink.segment, traversalrecord.traversalLink.TraversalRecord, allmaps("map[datamodel.PathSegment]int")
+//@   ensures linv(rl)
+//@   ensures result.Err == nil && !result.Local ==> isSumOf(linkCid(link), result.Data)
+//@   ensures vfail != old(vfail) ==> result.Err != nil
+//@   ensures rl.mostRecentLoadAttempt.link == link && rl.mostRecentLoadAttempt.successful == (result.Err == nil)
